@@ -73,6 +73,16 @@ def c17 (args : List String) : String :=
       let (_, out) := ops.toList.foldl step (Sonic.Space.init, [])
       "t=" ++ ";".intercalate out
     | none => "bad-args"
+  | ["bm", w, hx, hy, n] => match w.toNat?, parseHexNat hx, parseHexNat hy, n.toNat? with
+    | some w, some x, some y, some n =>
+      -- the lane-wise meaning: lowest set lane; `x` has a set lane below the lowest set lane of `y` (the masks of a block are
+      -- disjoint); no lane set; the `n` highest lanes cleared (all of them for `n = LEN`)
+      let low (v : Nat) : Nat := ((List.range w).find? (fun i => v.testBit i)).getD w
+      let fo := if x == 0 then "-" else toString (low x)
+      let before := if low x < low y then 1 else 0
+      let chb := x % 2 ^ (w - n)
+      s!"fo={fo} before={before} zero={if x == 0 then 1 else 0} chb={hexNat17 chb}"
+    | _, _, _, _ => "bad-args"
   | ["d2i", a, need] => match unhex a, need.toNat? with
     | some a, some need =>
       let sc := str2intScalar a.toList need
